@@ -17,6 +17,40 @@ def _(E, m, a, c0):
     if kind == 'RangeFrom': return le(r.fields[0], x)
     return lt(x, r.fields[0])
 
+# ------------------------------------------------------------------ provided methods of PartialOrd / Ord on crate types: via the type's own partial_cmp / cmp
+@pattern(r'<(&?[A-Z][\w:]*(?:<.*>)?) as PartialOrd(?:<.*>)?>::(lt|le|gt|ge)')
+def _(E, m, a, c0):
+    ty, op = m.groups()
+    r = E.call(None, None, f'<{ty} as PartialOrd>::partial_cmp', [a[0], a[1]], [f'&{ty}', f'&{ty}'])
+    if r.variant == 'None': return z3.BoolVal(False)
+    v = r.fields[0].variant
+    return z3.BoolVal({'lt': v == 'Less', 'le': v != 'Greater', 'gt': v == 'Greater', 'ge': v != 'Less'}[op])
+@pattern(r'<([A-Z][\w:]*(?:<.*>)?) as Ord>::(max|min|clamp)')
+def _(E, m, a, c0):
+    ty, op = m.groups()
+    if op == 'clamp': raise Missing('Ord::clamp')
+    r = E.call(None, None, f'<{ty} as Ord>::cmp', [Ref(Cell(a[0])), Ref(Cell(a[1]))], [f'&{ty}', f'&{ty}'])
+    v = r.variant
+    if op == 'max': return a[0] if v == 'Greater' else a[1]          # std: max returns the second argument when equal
+    return a[1] if v == 'Greater' else a[0]
+@pattern(r'core::slice::<impl \[.*\]>::swap')
+def _(E, m, a, c0):
+    v = E.deref(a[0]); n = len(v.fields)
+    if n == 0: raise Abort('swap out of bounds')
+    i = E.concretize(a[1], 0, n - 1); j = E.concretize(a[2], 0, n - 1)
+    f = list(v.fields); f[i], f[j] = f[j], f[i]; E.wr(a[0], Seq(f)); return UNIT
+@pattern(r'core::slice::<impl \[.*\]>::reverse')
+def _(E, m, a, c0):
+    v = E.deref(a[0]); E.wr(a[0], Seq(v.fields[::-1])); return UNIT
+@pattern(r'Vec::swap_remove')
+def _(E, m, a, c0):
+    v = E.deref(a[0]); n = len(v.fields)
+    if n == 0: raise Abort('swap_remove on empty Vec')
+    i = E.concretize(a[1], 0, n - 1)
+    f = list(v.fields); x = f[i]; f[i] = f[-1]; f.pop(); E.wr(a[0], Seq(f)); return x
+@pattern(r'<(?:std::rc::)?Rc<dyn .*> as From<Box<dyn .*>>>::from|<(?:std::rc::)?Rc<.*> as From<Box<.*>>>::from')
+def _(E, m, a, c0): return RcV(RcObj(a[0].cell.v))
+
 # ------------------------------------------------------------------ String as a byte sequence (concrete ASCII only: anything else is not encodable)
 def _ascii(E, v):
     out = []
